@@ -4,6 +4,17 @@ hash multisets, every node evaluated through one or more routes:
   Python operators   u.add (+)  u.or (|)  u.iadd (+=)  i.and (&)
   API methods        u.merge  u.addmany  i.meth  s.rm  s.rmlist  f.meth  n.meth  d meth|nmeth
   sub-commands       u.cli  i.cli  s.cli  f.cli  n.cli  t.cli  d cli|ncli     (`sourmash sig ...`)
+                     each optionally with a route suffix: `+k` = every operand file also holds decoy signatures
+                     (DNA k=31, protein k=7, dayhoff k=7) and the sub-command is given `-k 21 --dna`;
+                     `+f` = operands (all but the first of merge / intersect) are passed through `--from-file`;
+                     `+kf` = both.  The suffix changes how the operands reach the sub-command, not the operation.
+
+SELF-ALIASED operands: ~12% of the binary nodes use one handle for both operands (`a + a`, `a | a`, `a & a`,
+`a.intersection(a)`, `sig merge f.sig f.sig`, `sig intersect f.sig f.sig`, `sig subtract f.sig f.sig`, ...: the adapter
+passes the same Python object / the same file twice), and the in-place forms `u.merge.self` (`x.merge(x)`),
+`u.iadd.self` (`x += x`), `u.addmany.self` (`x.add_many(x)`), `s.rm.self` (`x.remove_many(x)`) apply an operation to a
+fresh mutable copy x of the operand with x itself as the argument.  The model has value semantics (op(x, x) =
+op(x, copy(x))); the oracle reports a wrong result under `C04:<kind>:self-aliased`.
 
 Leaves are related as overlapping / nested / disjoint / empty / identical; thresholds are
 equal or unequal; abundance modes equal or mixed; some operands are frozen.
@@ -29,6 +40,23 @@ ABUND_POOL = [1, 1, 2, 2, 3, 5, 7, 2 ** 32]
 
 UNION = ["u.add", "u.or", "u.iadd", "u.merge", "u.cli"]
 INTER = ["i.and", "i.meth", "i.cli"]
+
+
+def canon(line):
+    """the op line without its route suffix (`u.cli+kf 7 0 1 2` -> `u.cli 7 0 1 2`, `d cli+k 3 1 10` -> `d cli 3 1 10`)"""
+    w = line.split(" ")
+    if w and w[0] == "d" and len(w) > 1:
+        w[1] = w[1].split("+")[0]
+    elif w:
+        w[0] = w[0].split("+")[0]
+    return " ".join(w)
+
+
+def route_suffix(rng, from_file_ok):
+    """~40% of the sub-command calls take another route to the same core"""
+    if rng.random() < 0.6:
+        return ""
+    return rng.choice(["+k", "+f", "+kf"] if from_file_ok else ["+k"])
 
 
 def py_scaled_of(mh):
@@ -144,7 +172,7 @@ def gen_case(rng, flavour):
         alt = rng.random() < 0.5
         a = node(depth - 1)
         if kind in ("union", "inter", "sub", "inflate"):
-            b = node(depth - 1)
+            b = a if rng.random() < 0.12 else node(depth - 1)
         ma = meta[a]
         if kind == "union":
             mb = meta[b]
@@ -165,11 +193,15 @@ def gen_case(rng, flavour):
                     if extra and k > 0:
                         ops = [a, b]
                         ok = compat(a, b) and (fl or mb["tr"] == ma["tr"])
-                    got = emit(f"u.cli {r} {fl} " + " ".join(map(str, ops)), r, m, ok)
+                    got = emit(f"u.cli{route_suffix(rng, True)} {r} {fl} " + " ".join(map(str, ops)), r, m, ok)
                 else:
                     got = emit(f"{route} {r} {a} {b}", r, dict(ma), compat(a, b))
                 if k == 0:
                     res = got
+            if a == b or rng.random() < 0.15:
+                for route in rng.sample(["u.merge.self", "u.iadd.self", "u.addmany.self"], rng.randint(1, 3)):
+                    r = fresh()
+                    emit(f"{route} {r} {a}", r, dict(ma), True)
             return res if res is not None else a
         if kind == "inter":
             if not cli:
@@ -196,7 +228,7 @@ def gen_case(rng, flavour):
                     ops = [a, b] + extra
                     ok = all(compat(a, x) for x in ops)
                     m = {"num": ma["num"], "sc": ma["sc"], "tr": ab is not None}
-                    got = emit(f"i.cli {r} {'-' if ab is None else ab} " + " ".join(map(str, ops)), r, m, ok)
+                    got = emit(f"i.cli{route_suffix(rng, True)} {r} {'-' if ab is None else ab} " + " ".join(map(str, ops)), r, m, ok)
                 else:
                     got = emit(f"{route} {r} {a} {b}", r, {"num": ma["num"], "sc": ma["sc"], "tr": False},
                                flat_ok and compat(a, b))
@@ -217,18 +249,22 @@ def gen_case(rng, flavour):
                     ok = all(compat(a, x) for x in ops) and (fl or ab is not None or
                                                              not any(meta[x]["tr"] for x in [a] + ops))
                     m = {"num": ma["num"], "sc": ma["sc"], "tr": ab is not None}
-                    got = emit(f"s.cli {r} {fl} {'-' if ab is None else ab} {a} " + " ".join(map(str, ops)), r, m, ok)
+                    got = emit(f"s.cli{route_suffix(rng, False)} {r} {fl} {'-' if ab is None else ab} {a} " + " ".join(map(str, ops)), r, m, ok)
                 else:
                     got = emit(f"{route} {r} {a} {b}", r, dict(ma), True)
                 if k == 0:
                     res = got
+            if a == b or rng.random() < 0.1:
+                r = fresh()
+                emit(f"s.rm.self {r} {a}", r, dict(ma), True)
             return res if res is not None else a
         if kind == "flat":
             first = "f.cli" if cli else "f.meth"
             res = None
             for k, route in enumerate([first] + (["f.meth" if first == "f.cli" else "f.cli"] if alt else [])):
                 r = fresh()
-                got = emit(f"{route} {r} {a}", r, {"num": ma["num"], "sc": ma["sc"], "tr": False}, True)
+                rname = route + (route_suffix(rng, True) if route == "f.cli" else "")
+                got = emit(f"{rname} {r} {a}", r, {"num": ma["num"], "sc": ma["sc"], "tr": False}, True)
                 if k == 0:
                     res = got
             return res
@@ -251,7 +287,7 @@ def gen_case(rng, flavour):
                 ok = (not ma["tr"]) and mb["tr"] and ma["num"] == 0 and mb["num"] == 0 and ma["sc"] >= mb["sc"]
                 m = {"num": 0, "sc": mb["sc"], "tr": True}
                 if route == "n.cli":
-                    got = emit(f"n.cli {r} {b} {a}", r, m, ok)
+                    got = emit(f"n.cli{route_suffix(rng, False)} {r} {b} {a}", r, m, ok)
                 else:
                     got = emit(f"n.meth {r} {a} {b}", r, m, ok)
                 if k == 0:
@@ -261,7 +297,7 @@ def gen_case(rng, flavour):
             r = fresh()
             mn = rng.choice([0, 1, 1, 2, 2, 3, 5])
             mx = rng.choice(["-", "-", 1, 2, 3, 5, 2 ** 32])
-            got = emit(f"t.cli {r} {a} {mn} {mx}", r, dict(ma), ma["tr"])
+            got = emit(f"t.cli{route_suffix(rng, False)} {r} {a} {mn} {mx}", r, dict(ma), ma["tr"])
             return got if got is not None else a
         # downsample
         res = None
@@ -270,7 +306,8 @@ def gen_case(rng, flavour):
             first = "cli" if cli else "meth"
             for k, route in enumerate([first] + (["meth" if first == "cli" else "cli"] if alt else [])):
                 r = fresh()
-                got = emit(f"d {route} {r} {a} {v}", r, {"num": 0, "sc": v, "tr": ma["tr"]}, v >= ma["sc"])
+                rname = route + (route_suffix(rng, True) if route == "cli" else "")
+                got = emit(f"d {rname} {r} {a} {v}", r, {"num": 0, "sc": v, "tr": ma["tr"]}, v >= ma["sc"])
                 if k == 0:
                     res = got
             if rng.random() < 0.15:
@@ -281,7 +318,8 @@ def gen_case(rng, flavour):
             first = "ncli" if cli else "nmeth"
             for k, route in enumerate([first] + (["nmeth" if first == "ncli" else "ncli"] if alt else [])):
                 r = fresh()
-                got = emit(f"d {route} {r} {a} {v}", r, {"num": v, "sc": 0, "tr": ma["tr"]}, v <= ma["num"])
+                rname = route + (route_suffix(rng, True) if route == "ncli" else "")
+                got = emit(f"d {rname} {r} {a} {v}", r, {"num": v, "sc": 0, "tr": ma["tr"]}, v <= ma["num"])
                 if k == 0:
                     res = got
             if rng.random() < 0.15:
@@ -336,7 +374,7 @@ def oracle(case, impl):
     def resync(r, st, exact=False):
         E[r] = Exp(st["num"], st["mh"], st["tr"], Counter(_obs_dict(st)), exact=exact)
 
-    def check(idx, op, kind, r, st, exp, operands, via_inflate=False):
+    def check(idx, op, kind, r, st, exp, operands, via_inflate=False, all_ops=None):
         """exp: Exp built with the *reported* num/mh; compare parameters and content.
         One problem is reported per operation (the first that applies)."""
         problem = None
@@ -355,8 +393,12 @@ def oracle(case, impl):
             miss = sorted(set(want) - set(got))[:4]
             extra = sorted(set(got) - set(want))[:4]
             diff = [(h, got[h], want[h]) for h in sorted(set(got) & set(want)) if got[h] != want[h]][:4]
+            aliased = all_ops if all_ops is not None else operands
             if kind == "union" and len(nums) > 1:
                 sig = "C04:union:content:num-mismatch"
+            elif len(aliased) >= 2 and len(set(aliased)) < len(aliased) and kind in \
+                    ("union", "addmany", "intersection", "remove", "subtraction", "inflate"):
+                sig = f"C04:{kind}:self-aliased"
             elif exp.num and not exp.exact:
                 sig = f"C04:{kind}:num-content"
             else:
@@ -370,7 +412,7 @@ def oracle(case, impl):
             E[r] = exp
 
     for idx, (op, obs) in enumerate(zip(case, impl)):
-        w = op.split()
+        w = canon(op).split()
         o, a = w[0], w[1:]
         st = parse_show(obs)
         err = obs.startswith("err ")
@@ -407,6 +449,9 @@ def oracle(case, impl):
             kind = None
             flatten_flag = False
             ab = None
+            if o.endswith(".self"):         # x.op(x) on a fresh mutable copy x of the operand
+                o = o[:-5]
+                a = [a[0], a[1], a[1]]
             if o in ("u.add", "u.or", "u.iadd", "u.merge", "u.addmany"):
                 kind, r, ops = ("union" if o != "u.addmany" else "addmany"), int(a[0]), [int(a[1]), int(a[2])]
             elif o == "u.cli":
@@ -610,7 +655,7 @@ def oracle(case, impl):
                 pass
             # add_many / remove_many take the other sketch as a list of hashes: only the receiver's resolution matters
             res_ops = ops[:1] if kind in ("addmany", "remove") else ops + ([ab] if ab is not None else [])
-            check(idx, op, kind, r, st, exp, res_ops, via_inflate=ab is not None)
+            check(idx, op, kind, r, st, exp, res_ops, via_inflate=ab is not None, all_ops=ops)
         except (KeyError, ValueError, IndexError):
             continue
     return bad
@@ -638,6 +683,6 @@ def nontrivial(case, impl):
 
 
 def classify(case, impl, model, k):
-    op = case[k].split()
+    op = canon(case[k]).split()
     name = op[0] if op[0] != "d" else "d." + op[1]
     return f"C04:corr:{name}"
